@@ -171,6 +171,19 @@ fn oracle(req: &str, resp: &str) -> Option<bool> {
             for _ in 0..n { acc = &acc * &base / &unit; if acc >= lim { ok = false; break; } }
             if ok { got_u == Some(acc) } else { resp == "none" }
         }
+        "applyfactors" => {
+            // exact specification: pow(value, e) is 0 below one unit, one unit at exactly one unit or e = 0, the value at e = 1,
+            // otherwise the floored fixed-point power; then floor(pow * factor / UNIT); every overflow of the W-bit type is `none`
+            let (unit, v, f, e) = (u(3), u(4), u(5), u(6));
+            if (&e % &unit) != zero { return None; }
+            let n = (&e / &unit).to_u64_digits().first().copied().unwrap_or(0);
+            let p: Option<BigUint> = if v < unit { Some(zero.clone()) } else if v == unit { Some(unit.clone()) } else if n == 0 { Some(unit.clone()) } else if n == 1 { Some(v.clone()) } else {
+                let mut acc = unit.clone(); let mut ok = true;
+                for _ in 0..n { acc = &acc * &v / &unit; if acc >= lim { ok = false; break; } }
+                if ok { Some(acc) } else { None }
+            };
+            match p { None => resp == "none", Some(p) => { let r = &p * &f / &unit; if r < lim { got_u == Some(r) } else { resp == "none" } } }
+        }
         _ => return None,
     })
 }
@@ -198,7 +211,10 @@ fn gen_req(r: &mut Rng) -> String {
         14 => format!("num div2factorsigned {w} {unit} {} {}", i(r), n(r)),
         15 => format!("num fixedmul {w} {unit} {} {}", n(r), n(r)),
         16 | 17 => { let e = r.below(6) as u128 * unit; let base = if r.chance(1, 2) { unit * r.range(1, 5000) as u128 / r.range(1, 1000) as u128 } else { n(r) >> (w / 2) }; format!("num pow {w} {unit} {base} {e}") }
-        _ => { let e = r.below(4) as u128 * unit; let v = if r.chance(1,2) { unit * r.range(0, 3000) as u128 / 1000 } else { n(r) >> (w / 3) }; format!("num applyfactors {w} {unit} {v} {} {e}", n(r) >> (w/2)) }
+        _ => { let e = r.below(4) as u128 * unit;
+               // around one unit on purpose: `value < 1` gives 0, `value == 1` gives exactly the factor (1^e = 1), then the power
+               let v = match r.below(8) { 0 => unit, 1 => unit - 1, 2 => unit + 1, 3 | 4 => unit * r.range(0, 3000) as u128 / 1000, _ => n(r) >> (w / 3) };
+               format!("num applyfactors {w} {unit} {v} {} {e}", n(r) >> (w/2)) }
     }
 }
 
